@@ -36,7 +36,7 @@ changes sit in ever remoter corners (a float sum whose order matters, a function
 any file name, the request after a failed one). Every miss was
 turned into a wider alphabet, a new scenario or a new clause (`first run:` notes in the last column),
 and the whole set is re-run as a regression (`seedeval.py --checkonly`) after changes to the checks.
-Reading a miss also uncovered genuine defects of the unchanged tree (F24, F25) and weaknesses of
+Reading a miss also uncovered genuine defects of the unchanged tree (F24, F25, F26) and weaknesses of
 oracles that had been tolerant (C04 dot edges, C05 cut that removes everything, C06 option-order
 readings, C15 "0" labels).""" % (len(_n), sum(_n.values()), sum(_c.values()), ', '.join(str(_c[r]) for r in sorted(_n)))
 text = '''### 0.6 Independently written breaking changes (`seeded/`)
